@@ -4,38 +4,323 @@ engine, answerability of pending tokens, the bookkeeping of will registrations. 
 namespace Slock.Conn
 
 /-! ### close is idempotent -/
-theorem stepClose_idem (s : Server) (c : Nat) (hd : s.dead = none) :
-    (step (stepClose s c).1 (.close c .server)).1 = (stepClose s c).1 := by
-  unfold stepClose
+theorem closeOne_none {t : Server} {j : Nat} (h : t.conns[j]? = none) : closeOne t j = (t, .ignored) := by
+  unfold closeOne; simp [h]
+
+theorem closeOne_noop {t : Server} {j : Nat} {x : Conn} (h : t.conns[j]? = some x) (hc : x.closed = true) :
+    closeOne t j = (t, .noop) := by
+  unfold closeOne; simp [h, hc]
+
+theorem closeOne_defer {t : Server} {j : Nat} {x : Conn} (h : t.conns[j]? = some x) (hc : x.closed = false)
+    (ha : x.awaiting ≠ 0) :
+    closeOne t j = ({ t with conns := t.conns.set j { x with halfClosed := true } }, .deferred) := by
+  unfold closeOne; simp [h, hc, ha]
+
+theorem closeOne_do {t : Server} {j : Nat} {x : Conn} (h : t.conns[j]? = some x) (hc : x.closed = false)
+    (ha : x.awaiting = 0) :
+    closeOne t j = ((doClose t j x).1, .closed (doClose t j x).2.1 (doClose t j x).2.2) := by
+  unfold closeOne; simp [h, hc, ha]
+
+theorem doClose_dead (t : Server) (j : Nat) (x : Conn) : (doClose t j x).1.dead = (doClose t j x).2.2 := by
+  cases hf : (drainK (closeState t j x) j x).2 with
+  | none => rw [doClose_none t j x hf]
+  | some f => rw [doClose_some t j x f hf]
+
+/-- the record `Close()` worked on is closed afterwards -/
+theorem doClose_self_closed {t : Server} {j : Nat} {x : Conn} (h : t.conns[j]? = some x) :
+    ∃ y', (doClose t j x).1.conns[j]? = some y' ∧ y'.closed = true ∧ y'.outer = x.outer ∧ y'.nested = x.nested ∧ y'.awaiting = x.awaiting := by
+  cases hf : (drainK (closeState t j x) j x).2 with
+  | none => rw [doClose_none t j x hf]; exact ⟨_, closed_get_self h _, rfl, rfl, rfl, rfl⟩
+  | some f => rw [doClose_some t j x f hf]; exact ⟨_, closed1_get_self h, rfl, rfl, rfl, rfl⟩
+
+theorem doClose_other {t : Server} {j i : Nat} (x : Conn) (e : i ≠ j) :
+    (doClose t j x).1.conns[i]? = (t.conns[i]?).map (unadopt j) := by
+  cases hf : (drainK (closeState t j x) j x).2 with
+  | none => rw [doClose_none t j x hf]; exact closed_get_ne x _ e
+  | some f => rw [doClose_some t j x f hf]; exact closed1_get_ne x e
+
+/-- `Close()` of one protocol object twice = once -/
+theorem closeOne_idem (s : Server) (c : Nat) : (closeOne (closeOne s c).1 c).1 = (closeOne s c).1 := by
   cases hx : s.conns[c]? with
-  | none =>
-    simp only []
-    unfold step stepClose; simp [hd, hx]
+  | none => rw [closeOne_none hx]; simp only []; rw [closeOne_none hx]
+  | some x =>
+    cases hc : x.closed with
+    | true => rw [closeOne_noop hx hc]; simp only []; rw [closeOne_noop hx hc]
+    | false =>
+      by_cases ha : x.awaiting = 0
+      · rw [closeOne_do hx hc ha]
+        simp only []
+        obtain ⟨y', hy', hyc, _⟩ := doClose_self_closed (t := s) hx
+        rw [closeOne_noop hy' hyc]
+      · rw [closeOne_defer hx hc ha]
+        simp only []
+        have h1 : (s.conns.set c { x with halfClosed := true })[c]? = some { x with halfClosed := true } := get_set_self hx _
+        rw [closeOne_defer (t := { s with conns := s.conns.set c { x with halfClosed := true } }) h1 hc ha]
+        simp [List.set_set]
+
+/-- what `Close()` of record `j` leaves of every record: existence, the ADMIN links, and closed stays closed -/
+theorem closeOne_get_none (t : Server) (j i : Nat) (h : t.conns[i]? = none) : (closeOne t j).1.conns[i]? = none := by
+  have hl : t.conns.length ≤ i := by
+    by_cases hh : i < t.conns.length
+    · rw [List.getElem?_eq_getElem hh] at h; cases h
+    · omega
+  cases hx : t.conns[j]? with
+  | none => rw [closeOne_none hx]; exact h
+  | some x =>
+    cases hc : x.closed with
+    | true => rw [closeOne_noop hx hc]; exact h
+    | false =>
+      have hij : i ≠ j := by intro e; subst e; rw [hx] at h; cases h
+      by_cases ha : x.awaiting = 0
+      · rw [closeOne_do hx hc ha]; simp only []; rw [doClose_other x hij, h]; rfl
+      · rw [closeOne_defer hx hc ha]; simp only []; rw [get_set_ne hij]; exact h
+
+theorem closeOne_get_some (t : Server) (j i : Nat) (y : Conn) (h : t.conns[i]? = some y) :
+    ∃ y', (closeOne t j).1.conns[i]? = some y' ∧ y'.outer = y.outer ∧ y'.nested = y.nested ∧ y'.awaiting = y.awaiting ∧
+      (y.closed = true → y'.closed = true) := by
+  cases hx : t.conns[j]? with
+  | none => rw [closeOne_none hx]; exact ⟨y, h, rfl, rfl, rfl, id⟩
+  | some x =>
+    cases hc : x.closed with
+    | true => rw [closeOne_noop hx hc]; exact ⟨y, h, rfl, rfl, rfl, id⟩
+    | false =>
+      by_cases ha : x.awaiting = 0
+      · rw [closeOne_do hx hc ha]
+        simp only []
+        by_cases e : i = j
+        · subst e; rw [hx] at h; cases h
+          obtain ⟨y', h1, h2, h3, h4, h5⟩ := doClose_self_closed (t := t) hx
+          exact ⟨y', h1, h3, h4, h5, fun _ => h2⟩
+        · refine ⟨unadopt j y, by rw [doClose_other x e, h]; rfl, ?_, ?_, ?_, ?_⟩
+          · unfold unadopt; split <;> rfl
+          · unfold unadopt; split <;> rfl
+          · unfold unadopt; split <;> rfl
+          · rw [unadopt_closed]; exact id
+      · rw [closeOne_defer hx hc ha]
+        simp only []
+        by_cases e : i = j
+        · subst e; rw [hx] at h; cases h
+          exact ⟨_, get_set_self hx _, rfl, rfl, rfl, id⟩
+        · exact ⟨y, by rw [get_set_ne e]; exact h, rfl, rfl, rfl, id⟩
+
+theorem closeOne_streamOf (t : Server) (j c : Nat) : streamOf (closeOne t j).1 c = streamOf t c := by
+  unfold streamOf
+  cases h : t.conns[c]? with
+  | none => rw [closeOne_get_none t j c h]
+  | some y =>
+    obtain ⟨y', h1, h2, _⟩ := closeOne_get_some t j c y h
+    rw [h1]; simp only [h2]
+
+/-- a `Close()` that reports its wills has closed the record -/
+theorem closeOne_closed (t : Server) (j : Nat) (res : List WillRes) (f : Option Fatal) (h : (closeOne t j).2 = .closed res f) :
+    ∃ y', (closeOne t j).1.conns[j]? = some y' ∧ y'.closed = true := by
+  cases hx : t.conns[j]? with
+  | none => rw [closeOne_none hx] at h; cases h
+  | some x =>
+    cases hc : x.closed with
+    | true => rw [closeOne_noop hx hc] at h; cases h
+    | false =>
+      by_cases ha : x.awaiting = 0
+      · rw [closeOne_do hx hc ha]
+        obtain ⟨y', h1, h2, _⟩ := doClose_self_closed (t := t) hx
+        exact ⟨y', h1, h2⟩
+      · rw [closeOne_defer hx hc ha] at h; cases h
+
+/-- no nested protocol is running any more once its record is closed -/
+theorem nestedOf_none_of_closed (t : Server) (o n : Nat) (h : ∀ x, t.conns[o]? = some x → x.nested = some n →
+    ∀ y, t.conns[n]? = some y → y.closed = true) (hn : ∀ x, t.conns[o]? = some x → x.nested = none ∨ x.nested = some n) :
+    nestedOf t o = none := by
+  unfold nestedOf
+  cases hx : t.conns[o]? with
+  | none => rfl
   | some x =>
     simp only []
-    split
-    · rename_i hc
-      unfold step stepClose; simp [hd, hx, hc]
-    · rename_i hc
-      split
-      · rename_i ha
-        have h1 : (s.conns.set c { x with halfClosed := true })[c]? = some { x with halfClosed := true } := get_set_self hx _
-        unfold step stepClose
-        simp only [hd, h1]
-        rw [if_neg (show ¬ ({ x with halfClosed := true } : Conn).closed = true from hc),
-          if_pos (show ({ x with halfClosed := true } : Conn).awaiting ≠ 0 from ha)]
-        simp [List.set_set]
-      · rename_i ha
-        cases hf : (drainK (closeState s c x) c x).2 with
-        | some f =>
-          rw [doClose_some s c x f hf]
-          unfold step; simp
-        | none =>
-          rw [doClose_none s c x hf]
-          have h1 := closed_get_self hx { closing x with inited := false }
-          unfold step stepClose
-          simp only [h1]
-          simp [closing]
+    rcases hn x hx with e | e
+    · simp [e]
+    · simp only [e]
+      cases hy : t.conns[n]? with
+      | none => rfl
+      | some y => simp [h x hx e y hy]
+
+theorem nestedOf_spec (t : Server) (o n : Nat) (h : nestedOf t o = some n) :
+    ∃ x y, t.conns[o]? = some x ∧ x.nested = some n ∧ t.conns[n]? = some y ∧ y.closed = false := by
+  unfold nestedOf at h
+  cases hx : t.conns[o]? with
+  | none => simp [hx] at h
+  | some x =>
+    simp only [hx] at h
+    cases hn : x.nested with
+    | none => simp [hn] at h
+    | some m =>
+      simp only [hn] at h
+      cases hy : t.conns[m]? with
+      | none => simp [hy] at h
+      | some y =>
+        simp only [hy] at h
+        split at h
+        · cases h
+        · rename_i hc
+          cases h
+          exact ⟨x, y, rfl, hn, hy, by cases hh : y.closed <;> simp_all⟩
+
+theorem nestedOf_none_spec (t : Server) (o : Nat) (h : nestedOf t o = none) (x : Conn) (hx : t.conns[o]? = some x) (n : Nat)
+    (hn : x.nested = some n) (y : Conn) (hy : t.conns[n]? = some y) : y.closed = true := by
+  unfold nestedOf at h
+  simp only [hx, hn, hy] at h
+  split at h
+  · assumption
+  · cases h
+
+/-- after `Close()` of record `j` the nested protocol of `o` is the one it was, or none -/
+theorem closeOne_nestedOf_none (t : Server) (j o : Nat) (h : nestedOf t o = none) : nestedOf (closeOne t j).1 o = none := by
+  cases hx : t.conns[o]? with
+  | none =>
+    unfold nestedOf; rw [closeOne_get_none t j o hx]
+  | some x =>
+    obtain ⟨x', hx', _, hn', _⟩ := closeOne_get_some t j o x hx
+    cases hn : x.nested with
+    | none => unfold nestedOf; simp [hx', hn', hn]
+    | some n =>
+      unfold nestedOf
+      simp only [hx', hn', hn]
+      cases hy : t.conns[n]? with
+      | none => rw [closeOne_get_none t j n hy]
+      | some y =>
+        obtain ⟨y', hy', _, _, _, hc⟩ := closeOne_get_some t j n y hy
+        simp [hy', hc (nestedOf_none_spec t o h x hx n hn y hy)]
+
+theorem set_same {l : List Conn} {i : Nat} {z : Conn} (h : l[i]? = some z) : l.set i z = l := by
+  apply List.ext_getElem?
+  intro k
+  by_cases e : k = i
+  · subst e; rw [get_set_self h]; exact h.symm
+  · rw [get_set_ne e]
+
+theorem half_same (z : Conn) (h : z.halfClosed = true) : ({ z with halfClosed := true } : Conn) = z := by
+  cases z; simp_all
+
+theorem stepClose_idem (s : Server) (c : Nat) (hd : (stepClose s c).1.dead = none) :
+    (stepClose (stepClose s c).1 c).1 = (stepClose s c).1 := by
+  generalize ho : streamOf s c = o at *
+  cases hn : nestedOf s o with
+  | none =>
+    have e1 : (stepClose s c) = closeOne s o := by unfold stepClose; rw [ho, hn]
+    rw [e1]
+    have e2 : streamOf (closeOne s o).1 c = o := by rw [closeOne_streamOf, ho]
+    have e3 := closeOne_nestedOf_none s o o hn
+    have e4 : stepClose (closeOne s o).1 c = closeOne (closeOne s o).1 o := by unfold stepClose; rw [e2, e3]
+    rw [e4, closeOne_idem]
+  | some n =>
+    obtain ⟨x, y, hx, hxn, hy, hyo⟩ := nestedOf_spec s o n hn
+    cases hr : (closeOne s n).2 with
+    | closed res f =>
+      cases f with
+      | some ff =>
+        have e1 : (stepClose s c).1 = (closeOne s n).1 := by unfold stepClose; rw [ho, hn]; simp only [hr]
+        -- the state is dead: excluded
+        rw [e1] at hd
+        by_cases ha : y.awaiting = 0
+        · rw [closeOne_do hy hyo ha] at hr hd
+          simp only [Out.closed.injEq] at hr
+          rw [doClose_dead, hr.2] at hd; cases hd
+        · rw [closeOne_defer hy hyo ha] at hr; cases hr
+      | none =>
+        have e1 : (stepClose s c).1 = (closeOne (closeOne s n).1 o).1 := by
+          unfold stepClose; rw [ho, hn]; simp only [hr]
+          cases (closeOne (closeOne s n).1 o).2 <;> rfl
+        rw [e1]
+        have e2 : streamOf (closeOne (closeOne s n).1 o).1 c = o := by rw [closeOne_streamOf, closeOne_streamOf, ho]
+        -- n is closed from now on, so no nested protocol is running
+        obtain ⟨y1, hy1, hy1c⟩ := closeOne_closed s n res none hr
+        obtain ⟨x1, hx1, _, hx1n, _⟩ := closeOne_get_some s n o x hx
+        have e3 : nestedOf (closeOne s n).1 o = none := by
+          apply nestedOf_none_of_closed _ o n
+          · intro x' hx' _ y' hy'; rw [hy1] at hy'; cases hy'; exact hy1c
+          · intro x' hx'; rw [hx1] at hx'; cases hx'; right; rw [hx1n]; exact hxn
+        have e4 := closeOne_nestedOf_none (closeOne s n).1 o o e3
+        have e5 : stepClose (closeOne (closeOne s n).1 o).1 c = closeOne (closeOne (closeOne s n).1 o).1 o := by
+          unfold stepClose; rw [e2, e4]
+        rw [e5, closeOne_idem]
+    | deferred =>
+      -- the nested handler is blocked: both records get marked, and marking again changes nothing
+      have hya : y.awaiting ≠ 0 := by
+        intro ha; rw [closeOne_do hy hyo ha] at hr; cases hr
+      have e0 : (closeOne s n).1 = { s with conns := s.conns.set n { y with halfClosed := true } } := by
+        rw [closeOne_defer hy hyo hya]
+      obtain ⟨x1, hx1, _, hx1n, _, _⟩ := closeOne_get_some s n o x hx
+      have e1 : (stepClose s c).1 = { (closeOne s n).1 with conns := (closeOne s n).1.conns.set o { x1 with halfClosed := true } } := by
+        unfold stepClose; rw [ho, hn]; simp only [hr, hx1]
+      rw [e1]
+      generalize hs1 : (closeOne s n).1 = s1 at *
+      -- the records of n and o in the marked state
+      have hn1 : ∃ y1, s1.conns[n]? = some y1 ∧ y1.closed = false ∧ y1.awaiting ≠ 0 ∧ y1.halfClosed = true := by
+        rw [e0]; exact ⟨_, get_set_self hy _, hyo, hya, rfl⟩
+      obtain ⟨y1, hy1, hy1o, hy1a, hy1h⟩ := hn1
+      let s2 : Server := { s1 with conns := s1.conns.set o { x1 with halfClosed := true } }
+      have ho2 : s2.conns[o]? = some { x1 with halfClosed := true } := get_set_self hx1 _
+      have hn2 : ∃ y2, s2.conns[n]? = some y2 ∧ y2.closed = false ∧ y2.awaiting ≠ 0 ∧ y2.halfClosed = true := by
+        by_cases e : n = o
+        · subst e
+          rw [hy1] at hx1; cases hx1
+          exact ⟨_, ho2, hy1o, hy1a, rfl⟩
+        · exact ⟨y1, by show (s1.conns.set o _)[n]? = _; rw [get_set_ne e]; exact hy1, hy1o, hy1a, hy1h⟩
+      obtain ⟨y2, hy2, hy2o, hy2a, hy2h⟩ := hn2
+      have hst : streamOf s2 c = o := by
+        have : streamOf s1 c = o := by rw [← hs1, closeOne_streamOf, ho]
+        unfold streamOf at this ⊢
+        by_cases e : c = o
+        · subst e
+          show (match (s1.conns.set c _)[c]? with | some x => x.outer.getD c | none => c) = c
+          rw [get_set_self hx1]; simp only []
+          rw [hx1] at this; exact this
+        · show (match (s1.conns.set o _)[c]? with | some x => x.outer.getD c | none => c) = o
+          rw [get_set_ne e]; exact this
+      have hne2 : nestedOf s2 o = some n := by
+        unfold nestedOf
+        simp only [ho2, hx1n, hxn, hy2, hy2o]
+        simp
+      have hc2 : closeOne s2 n = (s2, .deferred) := by
+        rw [closeOne_defer hy2 hy2o hy2a, half_same y2 hy2h, set_same hy2]
+      show (stepClose s2 c).1 = s2
+      unfold stepClose
+      rw [hst, hne2]
+      simp only [hc2, ho2]
+      rw [half_same { x1 with halfClosed := true } rfl, set_same ho2]
+    | opened _ =>
+      exfalso
+      by_cases ha : y.awaiting = 0
+      · rw [closeOne_do hy hyo ha] at hr; cases hr
+      · rw [closeOne_defer hy hyo ha] at hr; cases hr
+    | ignored =>
+      exfalso
+      by_cases ha : y.awaiting = 0
+      · rw [closeOne_do hy hyo ha] at hr; cases hr
+      · rw [closeOne_defer hy hyo ha] at hr; cases hr
+    | inited _ =>
+      exfalso
+      by_cases ha : y.awaiting = 0
+      · rw [closeOne_do hy hyo ha] at hr; cases hr
+      · rw [closeOne_defer hy hyo ha] at hr; cases hr
+    | ok =>
+      exfalso
+      by_cases ha : y.awaiting = 0
+      · rw [closeOne_do hy hyo ha] at hr; cases hr
+      · rw [closeOne_defer hy hyo ha] at hr; cases hr
+    | routed _ =>
+      exfalso
+      by_cases ha : y.awaiting = 0
+      · rw [closeOne_do hy hyo ha] at hr; cases hr
+      · rw [closeOne_defer hy hyo ha] at hr; cases hr
+    | routedClosed _ _ _ =>
+      exfalso
+      by_cases ha : y.awaiting = 0
+      · rw [closeOne_do hy hyo ha] at hr; cases hr
+      · rw [closeOne_defer hy hyo ha] at hr; cases hr
+    | noop =>
+      exfalso
+      by_cases ha : y.awaiting = 0
+      · rw [closeOne_do hy hyo ha] at hr; cases hr
+      · rw [closeOne_defer hy hyo ha] at hr; cases hr
 
 theorem close_idem (s : Server) (c : Nat) (k k' : Cause) :
     (step (step s (.close c k)).1 (.close c k')).1 = (step s (.close c k)).1 := by
@@ -45,9 +330,12 @@ theorem close_idem (s : Server) (c : Nat) (k k' : Cause) :
     rw [this]; exact step_dead _ f hd
   | none =>
     have e1 : (step s (.close c k)).1 = (stepClose s c).1 := by unfold step; simp [hd]
-    have e2 : ∀ t : Server, (step t (.close c k')).1 = (step t (.close c .server)).1 := by
-      intro t; unfold step; cases t.dead <;> rfl
-    rw [e1, e2]; exact stepClose_idem s c hd
+    rw [e1]
+    cases hd2 : (stepClose s c).1.dead with
+    | some f => exact step_dead _ f hd2
+    | none =>
+      have e2 : (step (stepClose s c).1 (.close c k')).1 = (stepClose (stepClose s c).1 c).1 := by unfold step; simp [hd2]
+      rw [e2]; exact stepClose_idem s c hd2
 
 /-! ### routing -/
 theorem recvN_open (s : Server) (n d tok : Nat) (y : Conn) (hy : s.conns[d]? = some y) (ho : y.closed = false) (e : Nat)
@@ -55,7 +343,10 @@ theorem recvN_open (s : Server) (n d tok : Nat) (y : Conn) (hy : s.conns[d]? = s
   unfold recvN at h
   simp only [hy] at h
   cases hk : y.kind <;> simp only [hk] at h
-  · simp [ho] at h; exact h.symm
+  · simp [ho] at h
+    split at h
+    · cases h
+    · cases h; rfl
   · split at h
     · cases h
     · simp [ho] at h
@@ -161,37 +452,33 @@ theorem will_reply_to {s : Server} (hg : Good s) (c : Nat) (x : Conn) (hx : s.co
         subst this
         exact ⟨rfl, h1, hec, y, hy, hyo⟩
 
-/-- the same, read off the output of the close event -/
-theorem close_reply_to {s : Server} (hg : Good s) (c : Nat) (k : Cause) (res : List WillRes) (f : Option Fatal)
-    (r : WillRes) (d : Nat) (h : (step s (.close c k)).2 = .closed res f) (hm : r ∈ res) (hrd : r.reply = some (Dest.to d)) :
+/-- the same, read off the result of the `Close()` of record `c` -/
+theorem close_reply_to {s : Server} (hg : Good s) (c : Nat) (res : List WillRes) (f : Option Fatal)
+    (r : WillRes) (d : Nat) (h : (closeOne s c).2 = .closed res f) (hm : r ∈ res) (hrd : r.reply = some (Dest.to d)) :
     ∃ x, s.conns[c]? = some x ∧ x.inited = true ∧ aget s.clients x.cid = some d ∧ d ≠ c ∧
       ∃ y, s.conns[d]? = some y ∧ y.closed = false := by
-  unfold step at h
-  cases hd : s.dead with
-  | some ff => simp [hd] at h
-  | none =>
-    simp only [hd] at h
-    unfold stepClose at h
-    cases hx : s.conns[c]? with
-    | none => simp [hx] at h
-    | some x =>
-      simp only [hx] at h
-      split at h
-      · cases h
-      · split at h
-        · cases h
-        · have hres : res = (drainK (closeState s c x) c x).1 := by
-            cases hf : (drainK (closeState s c x) c x).2 with
-            | none => rw [doClose_none s c x hf] at h; simp at h; exact h.1.symm
-            | some ff => rw [doClose_some s c x ff hf] at h; simp at h; exact h.1.symm
-          rw [hres] at hm
-          unfold drainK at hm
-          cases hk : x.kind with
-          | text => simp only [hk] at hm; exact absurd hrd (drainT_no_to _ r d hm)
-          | binary =>
-            simp only [hk] at hm
-            have hr := drain_to _ c x.wills r d hm hrd
-            exact ⟨x, rfl, will_reply_to hg c x hx r.tok d hr⟩
+  cases hx : s.conns[c]? with
+  | none => rw [closeOne_none hx] at h; cases h
+  | some x =>
+    cases hc : x.closed with
+    | true => rw [closeOne_noop hx hc] at h; cases h
+    | false =>
+      by_cases ha : x.awaiting = 0
+      · rw [closeOne_do hx hc ha] at h
+        simp only [Out.closed.injEq] at h
+        have hres : res = (drainK (closeState s c x) c x).1 := by
+          cases hf : (drainK (closeState s c x) c x).2 with
+          | none => rw [doClose_none s c x hf] at h; exact h.1.symm
+          | some ff => rw [doClose_some s c x ff hf] at h; exact h.1.symm
+        rw [hres] at hm
+        unfold drainK at hm
+        cases hk : x.kind with
+        | text => simp only [hk] at hm; exact absurd hrd (drainT_no_to _ r d hm)
+        | binary =>
+          simp only [hk] at hm
+          have hr := drain_to _ c x.wills r d hm hrd
+          exact ⟨x, rfl, will_reply_to hg c x hx r.tok d hr⟩
+      · rw [closeOne_defer hx hc ha] at h; cases h
 
 /-! ### what close does to the engine -/
 theorem aget_putOwners_notin (m : List (Nat × Nat)) (c : Nat) (toks : List Nat) (tok : Nat) (h : tok ∉ toks) :
@@ -225,21 +512,37 @@ theorem doClose_engine (s : Server) (c : Nat) (x : Conn) :
     rw [doClose_some s c x f hf]
     exact ⟨_, rest, rfl, hr, (fun h => by simp at h), fun tok h => aget_putOwners_notin _ _ _ _ h⟩
 
-theorem stepClose_engine (s : Server) (c : Nat) :
-    ∃ toks, (stepClose s c).1.willLog = s.willLog ++ toks.map (fun t => (c, t)) ∧
+theorem closeOne_engine (s : Server) (c : Nat) :
+    ∃ toks, (closeOne s c).1.willLog = s.willLog ++ toks.map (fun t => (c, t)) ∧
       (∀ x, s.conns[c]? = some x → ∃ rest, x.wills.map (·.tok) = toks ++ rest) ∧
-      (∀ tok, tok ∉ toks → aget (stepClose s c).1.owner tok = aget s.owner tok) := by
-  unfold stepClose
+      (∀ tok, tok ∉ toks → aget (closeOne s c).1.owner tok = aget s.owner tok) := by
   cases hx : s.conns[c]? with
-  | none => exact ⟨[], by simp, (by intro x h; cases h), fun _ _ => rfl⟩
+  | none => rw [closeOne_none hx]; exact ⟨[], by simp, (by intro x h; cases h), fun _ _ => rfl⟩
   | some x =>
-    simp only []
-    split
-    · exact ⟨[], by simp, fun x' _ => ⟨_, rfl⟩, fun _ _ => rfl⟩
-    · split
-      · exact ⟨[], by simp, fun x' _ => ⟨_, rfl⟩, fun _ _ => rfl⟩
-      · obtain ⟨toks, rest, h1, h2, _, h4⟩ := doClose_engine s c x
+    cases hc : x.closed with
+    | true => rw [closeOne_noop hx hc]; exact ⟨[], by simp, fun x' _ => ⟨_, rfl⟩, fun _ _ => rfl⟩
+    | false =>
+      by_cases ha : x.awaiting = 0
+      · rw [closeOne_do hx hc ha]
+        obtain ⟨toks, rest, h1, h2, _, h4⟩ := doClose_engine s c x
         exact ⟨toks, h1, fun x' hx' => by cases hx'; exact ⟨rest, h2⟩, h4⟩
+      · rw [closeOne_defer hx hc ha]; exact ⟨[], by simp, fun x' _ => ⟨_, rfl⟩, fun _ _ => rfl⟩
+
+/-- the end of a stream touches the will log only by appending executed wills, and leaves the issuer the engine
+remembers for every other pending token as it was -/
+theorem stepClose_engine (s : Server) (c : Nat) :
+    ∃ subs : List (Nat × Nat), (stepClose s c).1.willLog = s.willLog ++ subs ∧
+      (∀ tok, tok ∉ subs.map (·.2) → aget (stepClose s c).1.owner tok = aget s.owner tok) := by
+  refine stepClose_ind (fun t => ∃ subs : List (Nat × Nat), t.willLog = s.willLog ++ subs ∧
+      (∀ tok, tok ∉ subs.map (·.2) → aget t.owner tok = aget s.owner tok)) s c ⟨[], by simp, fun _ _ => rfl⟩ ?_ ?_
+  · intro t j ⟨subs, h1, h2⟩
+    obtain ⟨toks, g1, _, g3⟩ := closeOne_engine t j
+    refine ⟨subs ++ toks.map (fun t => (j, t)), by rw [g1, h1, List.append_assoc], ?_⟩
+    intro tok hn
+    simp only [List.map_append, List.mem_append, not_or, List.map_map] at hn
+    rw [g3 tok (by intro hm; exact hn.2 (by simpa using hm)), h2 tok hn.1]
+  · intro t j x ⟨subs, h1, h2⟩ _
+    exact ⟨subs, h1, h2⟩
 
 /-- in a reachable state `Close` handles every will of the queue, in order, each with the outcome `willOutcome` says —
 whatever the outcome of the earlier ones (the error `ProcessCommad` returns for a self-answered will is ignored) -/
@@ -306,5 +609,38 @@ theorem closed_unreferenced {s : Server} (hg : Good s) (c : Nat) (x : Conn) (hx 
   · intro o y hy ht
     obtain ⟨_, z, hz, hzo, _⟩ := hg.adopted o y c hy ht
     rw [hx] at hz; cases hz; rw [hc] at hzo; cases hzo
+
+/-! ### the end of a stream in ADMIN mode -/
+theorem stepClose_plain {s : Server} {c : Nat} {x : Conn} (hx : s.conns[c]? = some x) (h1 : x.nested = none)
+    (h2 : x.outer = none) : stepClose s c = closeOne s c := by
+  have e1 : streamOf s c = c := by unfold streamOf; simp [hx, h2]
+  have e2 : nestedOf s c = none := by unfold nestedOf; simp [hx, h1]
+  unfold stepClose; rw [e1, e2]
+
+/-- the stream of a binary connection in ADMIN mode ends: the nested text protocol's wills run first, in order, then the
+connection's own -/
+theorem stepClose_admin_log {s : Server} (h : GSA s) {o n : Nat} {x y : Conn} (hx : s.conns[o]? = some x)
+    (hxo : x.closed = false) (hxa : x.awaiting = 0) (hxn : x.nested = some n) (hxu : x.outer = none) (hne : n ≠ o)
+    (hy : s.conns[n]? = some y) (hyo : y.closed = false) (hya : y.awaiting = 0) :
+    (stepClose s o).1.willLog =
+      s.willLog ++ (y.wills.map (·.tok)).map (fun t => (n, t)) ++ (x.wills.map (·.tok)).map (fun t => (o, t)) := by
+  obtain ⟨hg, hs, hd⟩ := h
+  have e1 : streamOf s o = o := by unfold streamOf; simp [hx, hxu]
+  have e2 : nestedOf s o = some n := by unfold nestedOf; simp [hx, hxn, hy, hyo]
+  have c1 := closeOne_do hy hyo hya
+  have a1 : (doClose s n y).2.2 = none := doClose_alive hg hy
+  have g1 : GSA (closeOne s n).1 := gsa_closeOne ⟨hg, hs, hd⟩ n
+  rw [c1] at g1
+  -- the outer record after the nested protocol closed
+  have hx1 : (doClose s n y).1.conns[o]? = some (unadopt n x) := by
+    rw [doClose_other y (fun e => hne e.symm), hx]; rfl
+  have c2 := closeOne_do (t := (doClose s n y).1) hx1 (by rw [unadopt_closed]; exact hxo)
+    (by unfold unadopt; split <;> exact hxa)
+  have l1 := doClose_all hg hy
+  have l2 := doClose_all g1.1 hx1
+  unfold stepClose
+  rw [e1, e2]
+  simp only [c1, a1, c2]
+  rw [l2, l1, unadopt_wills]
 
 end Slock.Conn
